@@ -180,7 +180,31 @@ def run(ctx: Ctx) -> None:
         ctx.fail("height.formula", hm, ha[0] if ha else hf,
                  "height_func_list does not compute n - (k + 1) - #{generators whose leftmost non-trivial index is > k}", func="height_func_list",
                  construct=f"height_func_list: {short(ha[0], 100) if ha else 'no height assignment'}")
+    # node order of the graph entry point: the solver and every conversion index qubits by the graph's own node order
+    hd0 = repo.anchor(HEIGHT, "height_dict")
+    ctx.touch(hm, hd0)
+    convs = [c for c in calls_in(hd0) if call_attr(c) in ("to_numpy_array", "adjacency_matrix")]
+    if not convs:
+        raise AnalysisError("height_dict: graph -> adjacency conversion not found")
+    for c in convs:
+        nl = get_kw(c, "nodelist")
+        v = nl
+        if isinstance(nl, ast.Name):
+            src = [n.value for n in ast.walk(hd0) if isinstance(n, ast.Assign) and len(n.targets) == 1 and norm(n.targets[0]) == nl.id]
+            v = src[-1] if src else nl
+        default_order = v is None or (isinstance(v, ast.Constant) and v.value is None) or \
+            (isinstance(v, ast.Call) and call_attr(v) == "sort")  # list.sort() returns None: networkx then uses the graph's own order
+        if default_order:
+            ctx.ok("height.formula", hm, c, what="height_dict(graph=...) uses the graph's own node order (as the solver's tableau does)")
+        else:
+            ctx.fail("height.formula", hm, c,
+                     f"height_dict(graph=...) orders the qubits by `{short(v, 50)}`; the tableau the solver works on (and every other conversion) uses "
+                     f"the graph's own node order, so for a graph whose nodes were not created in sorted order the height function — hence the "
+                     f"reported emitter count — is that of a different emission order than the one the circuit uses",
+                     func="height_dict", construct="height_dict: node order differs from the graph's own")
     # advisory noted in DESIGN §5.3
+    from ..rules import memo
+    memo.rule_memo_sound(ctx, [HEIGHT, TRS])
     hd = repo.anchor(HEIGHT, "height_dict")
     for n in ast.walk(hd):
         if isinstance(n, ast.Assign) and isinstance(n.value, ast.Call) and call_attr(n.value) == "sort":
@@ -198,6 +222,8 @@ def _anc(n):
 
 
 KNOCKOUTS = [
+    Knockout("height-max-weak-cache", HEIGHT, sub_once("def height_max(x_matrix=None, z_matrix=None, graph=None):", "import weakref\n_HM = weakref.WeakKeyDictionary()\n\n\ndef height_max_cached(graph):\n    if graph in _HM:\n        return _HM[graph]\n    _HM[graph] = height_max(graph=graph)\n    return _HM[graph]\n\n\ndef height_max(x_matrix=None, z_matrix=None, graph=None):"), "memo.sound", "key does not determine"),
+    Knockout("height-sorted-nodes", HEIGHT, sub_once("            node_list = list(graph.nodes()).sort()", "            node_list = sorted(graph.nodes())"), "height.formula", "node order differs"),
     Knockout("G11-double-emission", TRS,
              sub_once("        self._add_emitter_photon_cnot(circuit, emitter_index, photon_index)\n        transform.cnot_gate(tableau, self.n_photon + emitter_index, photon_index)\n",
                       "        self._add_emitter_photon_cnot(circuit, emitter_index, photon_index)\n        self._add_emitter_photon_cnot(circuit, emitter_index, photon_index)\n        transform.cnot_gate(tableau, self.n_photon + emitter_index, photon_index)\n"),
